@@ -50,6 +50,9 @@ func sizeClass(rng *kernel.RNG, env *kernel.Env, k int) GenOpts {
 // the tree in its own parent-closed order and batching.
 func GenC02(rng *kernel.RNG, env *kernel.Env, k int) any {
 	p := &Plan{FailAt: -1, GoMaxProcs: []int{1, 2, 4, 16}[rng.Intn(4)]}
+	if rng.Intn(2) == 0 {
+		p.OrderSeed = rng.Uint64() | 1
+	}
 	p.Recipe = GenRecipe(rng, sizeClass(rng, env, k))
 	nn := rng.Range(1, 3)
 	var lists [][]Op
@@ -65,6 +68,9 @@ func GenC02(rng *kernel.RNG, env *kernel.Env, k int) any {
 // FULL, HEADER-only and headers-then-blocks nodes.
 func GenC03(rng *kernel.RNG, env *kernel.Env, k int) any {
 	p := &Plan{FailAt: -1, GoMaxProcs: []int{1, 2, 4, 16}[rng.Intn(4)]}
+	if rng.Intn(2) == 0 {
+		p.OrderSeed = rng.Uint64() | 1
+	}
 	o := sizeClass(rng, env, k)
 	if o.MaxTx < 3 {
 		o.MaxTx = 3
@@ -109,6 +115,9 @@ func GenC03(rng *kernel.RNG, env *kernel.Env, k int) any {
 // crashes at rest and Byzantine single-field corruptions of blocks in flight.
 func GenC01(rng *kernel.RNG, env *kernel.Env, k int) any {
 	p := &Plan{FailAt: -1, GoMaxProcs: []int{1, 2, 4, 16}[rng.Intn(4)]}
+	if rng.Intn(2) == 0 {
+		p.OrderSeed = rng.Uint64() | 1
+	}
 	o := sizeClass(rng, env, k)
 	o.MaxTx = 8
 	p.Recipe = GenRecipe(rng, o)
